@@ -233,4 +233,147 @@ theorem punctuation_spec (feats : Features) (f : Nat)
   intro hf
   simpa [OptionalControl, hf] using hs
 
+theorem exponentFlags_spec (f : Nat) : isValidExponentFlags f = decide (ExponentFlagsOk (unpack f)) := by
+  unfold isValidExponentFlags ExponentFlagsOk
+  show (f &&& 2 ^ 6 == 0 || f &&& 2 ^ 14 == 0) = _
+  rw [and_two_pow_eq_zero, and_two_pow_eq_zero]
+  simp only [unpack, Format.noExponentNotation, Format.requiredExponentNotation, Format.bit]
+  rw [Bool.eq_iff_iff]; simp <;> omega
+
+theorem intConsec_spec (f : Nat) :
+    ((f &&& G.INTEGER_DIGIT_SEPARATOR_FLAG_MASK) == G.INTEGER_CONSECUTIVE_DIGIT_SEPARATOR) =
+      !decide (IntegerConsecutiveOk (unpack f)) := by
+  show ((f &&& (2 ^ 32 ||| 2 ^ 35 ||| 2 ^ 38 ||| 2 ^ 41)) == 2 ^ 41) = _
+  rw [consec_eq f 32 35 38 41 (by omega) (by omega) (by omega)]
+  simp only [IntegerConsecutiveOk, unpack, Format.integerConsecutiveSep, Format.integerInternalSep,
+    Format.integerLeadingSep, Format.integerTrailingSep, Format.bit]
+  rw [Bool.eq_iff_iff]; simp <;> omega
+
+theorem flagsAreDefault_unpack (f : Nat) : FlagsAreDefault (unpack f) ↔
+    (f / 2 ^ 2 % 2 = 1 ∧ f / 2 ^ 3 % 2 = 1 ∧ ¬ f / 2 ^ 0 % 2 = 1 ∧ ¬ f / 2 ^ 1 % 2 = 1 ∧ ¬ f / 2 ^ 4 % 2 = 1 ∧
+     ¬ f / 2 ^ 5 % 2 = 1 ∧ ¬ f / 2 ^ 6 % 2 = 1 ∧ ¬ f / 2 ^ 7 % 2 = 1 ∧ ¬ f / 2 ^ 8 % 2 = 1 ∧ ¬ f / 2 ^ 9 % 2 = 1 ∧
+     ¬ f / 2 ^ 10 % 2 = 1 ∧ ¬ f / 2 ^ 11 % 2 = 1 ∧ ¬ f / 2 ^ 12 % 2 = 1 ∧ ¬ f / 2 ^ 13 % 2 = 1 ∧ ¬ f / 2 ^ 14 % 2 = 1 ∧
+     ¬ f / 2 ^ 15 % 2 = 1 ∧ ¬ f / 2 ^ 16 % 2 = 1 ∧ ¬ f / 2 ^ 17 % 2 = 1 ∧
+     ¬ f / 2 ^ 32 % 2 = 1 ∧ ¬ f / 2 ^ 33 % 2 = 1 ∧ ¬ f / 2 ^ 34 % 2 = 1 ∧ ¬ f / 2 ^ 35 % 2 = 1 ∧ ¬ f / 2 ^ 36 % 2 = 1 ∧
+     ¬ f / 2 ^ 37 % 2 = 1 ∧ ¬ f / 2 ^ 38 % 2 = 1 ∧ ¬ f / 2 ^ 39 % 2 = 1 ∧ ¬ f / 2 ^ 40 % 2 = 1 ∧ ¬ f / 2 ^ 41 % 2 = 1 ∧
+     ¬ f / 2 ^ 42 % 2 = 1 ∧ ¬ f / 2 ^ 43 % 2 = 1 ∧ ¬ f / 2 ^ 44 % 2 = 1) := by
+  simp only [FlagsAreDefault, unpack, Format.requiredIntegerDigits, Format.requiredFractionDigits,
+      Format.requiredExponentDigits, Format.requiredMantissaDigits, Format.noPositiveMantissaSign,
+      Format.requiredMantissaSign, Format.noExponentNotation, Format.noPositiveExponentSign,
+      Format.requiredExponentSign, Format.noExponentWithoutFraction, Format.noSpecial, Format.caseSensitiveSpecial,
+      Format.noIntegerLeadingZeros, Format.noFloatLeadingZeros, Format.requiredExponentNotation,
+      Format.caseSensitiveExponent, Format.caseSensitiveBasePrefix, Format.caseSensitiveBaseSuffix,
+      Format.integerInternalSep, Format.fractionInternalSep, Format.exponentInternalSep, Format.integerLeadingSep,
+      Format.fractionLeadingSep, Format.exponentLeadingSep, Format.integerTrailingSep, Format.fractionTrailingSep,
+      Format.exponentTrailingSep, Format.integerConsecutiveSep, Format.fractionConsecutiveSep,
+      Format.exponentConsecutiveSep, Format.specialSep, Format.bit, decide_eq_true_eq, decide_eq_false_iff_not]
+
+theorem bit_of_field (f s n k v : Nat) (hs : s ≤ k) (hk : k < s + n) (h : f / 2 ^ s % 2 ^ n = v) :
+    f / 2 ^ k % 2 = v / 2 ^ (k - s) % 2 := by
+  subst h
+  have e : f / 2 ^ k = f / 2 ^ s / 2 ^ (k - s) := by
+    rw [Nat.div_div_eq_div_mul, ← Nat.pow_add]; congr 2; omega
+  rw [e]
+  generalize f / 2 ^ s = g
+  have hj : k - s < n := by omega
+  generalize k - s = j at *
+  have t := Nat.testBit_mod_two_pow g n j
+  rw [Nat.testBit_eq_decide_div_mod_eq, Nat.testBit_eq_decide_div_mod_eq] at t
+  simp only [hj, decide_true, Bool.true_and] at t
+  have a : g / 2 ^ j % 2 = 0 ∨ g / 2 ^ j % 2 = 1 := by omega
+  have b : g % 2 ^ n / 2 ^ j % 2 = 0 ∨ g % 2 ^ n / 2 ^ j % 2 = 1 := by omega
+  rcases a with a | a <;> rcases b with b | b <;> simp [a, b] at t ⊢
+
+theorem flagWord_arith (f : Nat) :
+    (f % 2 ^ 18 + (f / 2 ^ 32 % 2 ^ 13) * 2 ^ 32 = 12) ↔
+    (f / 2 ^ 2 % 2 = 1 ∧ f / 2 ^ 3 % 2 = 1 ∧ ¬ f / 2 ^ 0 % 2 = 1 ∧ ¬ f / 2 ^ 1 % 2 = 1 ∧ ¬ f / 2 ^ 4 % 2 = 1 ∧
+     ¬ f / 2 ^ 5 % 2 = 1 ∧ ¬ f / 2 ^ 6 % 2 = 1 ∧ ¬ f / 2 ^ 7 % 2 = 1 ∧ ¬ f / 2 ^ 8 % 2 = 1 ∧ ¬ f / 2 ^ 9 % 2 = 1 ∧
+     ¬ f / 2 ^ 10 % 2 = 1 ∧ ¬ f / 2 ^ 11 % 2 = 1 ∧ ¬ f / 2 ^ 12 % 2 = 1 ∧ ¬ f / 2 ^ 13 % 2 = 1 ∧ ¬ f / 2 ^ 14 % 2 = 1 ∧
+     ¬ f / 2 ^ 15 % 2 = 1 ∧ ¬ f / 2 ^ 16 % 2 = 1 ∧ ¬ f / 2 ^ 17 % 2 = 1 ∧
+     ¬ f / 2 ^ 32 % 2 = 1 ∧ ¬ f / 2 ^ 33 % 2 = 1 ∧ ¬ f / 2 ^ 34 % 2 = 1 ∧ ¬ f / 2 ^ 35 % 2 = 1 ∧ ¬ f / 2 ^ 36 % 2 = 1 ∧
+     ¬ f / 2 ^ 37 % 2 = 1 ∧ ¬ f / 2 ^ 38 % 2 = 1 ∧ ¬ f / 2 ^ 39 % 2 = 1 ∧ ¬ f / 2 ^ 40 % 2 = 1 ∧ ¬ f / 2 ^ 41 % 2 = 1 ∧
+     ¬ f / 2 ^ 42 % 2 = 1 ∧ ¬ f / 2 ^ 43 % 2 = 1 ∧ ¬ f / 2 ^ 44 % 2 = 1) := by
+  constructor
+  · intro h
+    have hl : f / 2 ^ 0 % 2 ^ 18 = 12 := by omega
+    have hh : f / 2 ^ 32 % 2 ^ 13 = 0 := by omega
+    clear h
+    refine ⟨?_, ?_, ?_, ?_, ?_, ?_, ?_, ?_, ?_, ?_, ?_, ?_, ?_, ?_, ?_, ?_, ?_, ?_, ?_, ?_, ?_, ?_, ?_, ?_, ?_, ?_,
+      ?_, ?_, ?_, ?_, ?_⟩
+    iterate 18 (rw [bit_of_field f 0 18 _ 12 (Nat.zero_le _) (by decide) hl] <;> decide)
+    iterate 13 (rw [bit_of_field f 32 13 _ 0 (by decide) (by decide) hh] <;> decide)
+  · rintro ⟨h2, h3, h0, h1, h4, h5, h6, h7, h8, h9, h10, h11, h12, h13, h14, h15, h16, h17,
+      g0, g1, g2, g3, g4, g5, g6, g7, g8, g9, g10, g11, g12⟩
+    have bit0 : ∀ {x : Nat}, ¬ x % 2 = 1 → x % 2 = 0 := fun h => by omega
+    have c0 := chunk6 f 0 0 0 1 1 0 0 (bit0 h0) (bit0 h1) h2 h3 (bit0 h4) (bit0 h5)
+    have c1 := chunk6 f 6 0 0 0 0 0 0 (bit0 h6) (bit0 h7) (bit0 h8) (bit0 h9) (bit0 h10) (bit0 h11)
+    have c2 := chunk6 f 12 0 0 0 0 0 0 (bit0 h12) (bit0 h13) (bit0 h14) (bit0 h15) (bit0 h16) (bit0 h17)
+    have c3 := chunk6 f 32 0 0 0 0 0 0 (bit0 g0) (bit0 g1) (bit0 g2) (bit0 g3) (bit0 g4) (bit0 g5)
+    have c4 := chunk6 f 38 0 0 0 0 0 0 (bit0 g6) (bit0 g7) (bit0 g8) (bit0 g9) (bit0 g10) (bit0 g11)
+    clear h2 h3 h0 h1 h4 h5 h6 h7 h8 h9 h10 h11 h12 h13 h14 h15 h16 h17 g0 g1 g2 g3 g4 g5 g6 g7 g8 g9 g10 g11
+    omega
+
+theorem fracConsec_spec (f : Nat) :
+    ((f &&& G.FRACTION_DIGIT_SEPARATOR_FLAG_MASK) == G.FRACTION_CONSECUTIVE_DIGIT_SEPARATOR) =
+      !decide (FractionConsecutiveOk (unpack f)) := by
+  show ((f &&& (2 ^ 33 ||| 2 ^ 36 ||| 2 ^ 39 ||| 2 ^ 42)) == 2 ^ 42) = _
+  rw [consec_eq f 33 36 39 42 (by omega) (by omega) (by omega)]
+  simp only [FractionConsecutiveOk, unpack, Format.fractionConsecutiveSep, Format.fractionInternalSep,
+    Format.fractionLeadingSep, Format.fractionTrailingSep, Format.bit]
+  rw [Bool.eq_iff_iff]; simp <;> omega
+
+theorem expConsec_spec (f : Nat) :
+    ((f &&& G.EXPONENT_DIGIT_SEPARATOR_FLAG_MASK) == G.EXPONENT_CONSECUTIVE_DIGIT_SEPARATOR) =
+      !decide (ExponentConsecutiveOk (unpack f)) := by
+  show ((f &&& (2 ^ 34 ||| 2 ^ 37 ||| 2 ^ 40 ||| 2 ^ 43)) == 2 ^ 43) = _
+  rw [consec_eq f 34 37 40 43 (by omega) (by omega) (by omega)]
+  simp only [ExponentConsecutiveOk, unpack, Format.exponentConsecutiveSep, Format.exponentInternalSep,
+    Format.exponentLeadingSep, Format.exponentTrailingSep, Format.bit]
+  rw [Bool.eq_iff_iff]; simp <;> omega
+
+theorem mantissaSign_spec (f : Nat) :
+    (hasFlag f G.NO_POSITIVE_MANTISSA_SIGN && hasFlag f G.REQUIRED_MANTISSA_SIGN) =
+      !decide (MantissaSignOk (unpack f)) := by
+  rw [show G.NO_POSITIVE_MANTISSA_SIGN = Flag.noPositiveMantissaSign.mask from rfl,
+    show G.REQUIRED_MANTISSA_SIGN = Flag.requiredMantissaSign.mask from rfl, hasFlag_unpack, hasFlag_unpack]
+  simp only [flagOf, MantissaSignOk]
+  by_cases h1 : (unpack f).noPositiveMantissaSign = true <;> by_cases h2 : (unpack f).requiredMantissaSign = true <;>
+    simp [h1, h2]
+
+theorem exponentSign_spec (f : Nat) :
+    (hasFlag f G.NO_POSITIVE_EXPONENT_SIGN && hasFlag f G.REQUIRED_EXPONENT_SIGN) =
+      !decide (ExponentSignOk (unpack f)) := by
+  rw [show G.NO_POSITIVE_EXPONENT_SIGN = Flag.noPositiveExponentSign.mask from rfl,
+    show G.REQUIRED_EXPONENT_SIGN = Flag.requiredExponentSign.mask from rfl, hasFlag_unpack, hasFlag_unpack]
+  simp only [flagOf, ExponentSignOk]
+  by_cases h1 : (unpack f).noPositiveExponentSign = true <;> by_cases h2 : (unpack f).requiredExponentSign = true <;>
+    simp [h1, h2]
+
+theorem special_spec (f : Nat) :
+    ((hasFlag f G.NO_SPECIAL && hasFlag f G.CASE_SENSITIVE_SPECIAL) ||
+      (hasFlag f G.NO_SPECIAL && hasFlag f G.SPECIAL_DIGIT_SEPARATOR)) = !decide (SpecialOk (unpack f)) := by
+  rw [show G.NO_SPECIAL = Flag.noSpecial.mask from rfl,
+    show G.CASE_SENSITIVE_SPECIAL = Flag.caseSensitiveSpecial.mask from rfl,
+    show G.SPECIAL_DIGIT_SEPARATOR = Flag.specialSep.mask from rfl, hasFlag_unpack, hasFlag_unpack, hasFlag_unpack]
+  simp only [flagOf, SpecialOk]
+  by_cases h1 : (unpack f).noSpecial = true <;> by_cases h2 : (unpack f).caseSensitiveSpecial = true <;>
+    by_cases h3 : (unpack f).specialSep = true <;> simp [h1, h2, h3]
+
+/-- without `format`: `(format & FLAG_MASK) != (REQUIRED_EXPONENT_DIGITS | REQUIRED_MANTISSA_DIGITS)` -/
+theorem flagMask_spec (f : Nat) :
+    ((f &&& G.FLAG_MASK) != (G.REQUIRED_EXPONENT_DIGITS ||| G.REQUIRED_MANTISSA_DIGITS)) =
+      !decide (FlagsAreDefault (unpack f)) := by
+  have e : (f &&& G.FLAG_MASK) = f % 2 ^ 18 + (f / 2 ^ 32 % 2 ^ 13) * 2 ^ 32 := by
+    have m : G.FLAG_MASK = (2 ^ 18 - 1) ||| (2 ^ 13 - 1) <<< 32 := by decide
+    rw [m, Nat.and_or_distrib_left, Nat.and_two_pow_sub_one_eq_mod, and_shifted_mask,
+      or_mul_two_pow _ _ _ (by omega)]
+  have v : (G.REQUIRED_EXPONENT_DIGITS ||| G.REQUIRED_MANTISSA_DIGITS) = 12 := by decide
+  rw [e, v]
+  have key : (f % 2 ^ 18 + (f / 2 ^ 32 % 2 ^ 13) * 2 ^ 32 = 12) ↔ FlagsAreDefault (unpack f) :=
+    (flagWord_arith f).trans (flagsAreDefault_unpack f).symm
+  by_cases h : FlagsAreDefault (unpack f)
+  · simp [h, key.mpr h]
+  · have : ¬ (f % 2 ^ 18 + (f / 2 ^ 32 % 2 ^ 13) * 2 ^ 32 = 12) := fun x => h (key.mp x)
+    simp [h, this]
+
 end LexVerif.Props.C18
